@@ -224,3 +224,33 @@ Lemma total_on_same_inputs c c' a :
                exists g0, dget (gates c) l = Some g0 /\ gtyp g0 = INPUT) ->
   total_on c a -> total_on c' a.
 Proof. intros H Ht l g Hg Hi. destruct (H l g Hg Hi) as (g0 & Hg0 & Hi0). eapply Ht; eassumption. Qed.
+
+(* executable arity check, for concrete examples *)
+Definition arity_okb (c : circuit) : bool :=
+  forallb (fun kg : label * gate =>
+             gtype_beq (gtyp (snd kg)) INPUT || den_accepts (gtyp (snd kg)) (length (gops (snd kg))))
+          (gates c).
+
+Lemma arity_okb_sound c : arity_okb c = true -> arity_ok c.
+Proof.
+  unfold arity_okb; rewrite forallb_forall. intros H l g Hg Ht.
+  specialize (H (l, g) (dget_In _ _ _ Hg)); simpl in H.
+  apply orb_true_iff in H; destruct H as [H|H]; [apply gtype_beq_eq in H; contradiction|exact H].
+Qed.
+
+Lemma Eval_input_val c a l g v :
+  dget (gates c) l = Some g -> gtyp g = INPUT -> aval a l = v -> Eval c a l v.
+Proof. intros Hg Ht <-; eapply EvalInput; eassumption. Qed.
+
+(* executable totality check, for concrete examples *)
+Definition total_onb (c : circuit) (a : assignment) : bool :=
+  forallb (fun kg : label * gate =>
+             negb (gtype_beq (gtyp (snd kg)) INPUT) || negb (st_beq (aval a (fst kg)) U))
+          (gates c).
+
+Lemma total_onb_sound c a : total_onb c a = true -> total_on c a.
+Proof.
+  unfold total_onb; rewrite forallb_forall. intros H l g Hg Ht.
+  specialize (H (l, g) (dget_In _ _ _ Hg)); simpl in H. rewrite Ht in H; simpl in H.
+  intros E; rewrite E in H; discriminate.
+Qed.
